@@ -108,8 +108,16 @@ let () = iter_lines (fun line ->
             Hashtbl.remove present (string_of_z k); Hashtbl.replace removed (string_of_z k) k;
             let len = Stdlib.List.length (OpenTable.bk s (z_of_int b)) in
             OpenTable.remove (BucketOps.O2.remP (z_of_int 3)) s (z_of_int b) k (((z_of_int (3 - len), z0), z0), z0) end)) (OpenInstances.o2_empty (z_of_int 3)) ops in
-      let ok = Hashtbl.fold (fun _ k acc -> acc && OpenInstances.o2_find nz h st k) present true
-            && Hashtbl.fold (fun _ k acc -> acc && not (OpenInstances.o2_find nz h st k)) removed true in
+      (* lookups = the GENERATED HashSet::pvFind(indexCode, buckets, pred) run on the model table (proved to give the verdict of
+         OpenTable.find); a reported bucket must hold the key; the hand search must agree *)
+      let gfind k = (match OpenInstances.o2_gen_find nz hcode st k with
+        | Ok (r, ic) -> let hit = string_of_z r <> "0" in
+            if hit && not (Stdlib.List.exists (fun x -> string_of_z x = string_of_z k) (OpenTable.bk st ic)) then failwith "generated pvFind: wrong bucket";
+            if hit <> OpenInstances.o2_find nz h st k then failwith "generated pvFind <> model find";
+            hit
+        | _ -> failwith "generated pvFind: Stuck/Fuel/Exn") in
+      let ok = Hashtbl.fold (fun _ k acc -> acc && gfind k) present true
+            && Hashtbl.fold (fun _ k acc -> acc && not (gfind k)) removed true in
       Printf.printf "%s found=%b full=%b badfull=false\n"
         (dump (OpenTable.bk st) (fun i -> BucketOps.O2.dec (OpenTable.bd st i)) (fun i -> BucketOps.O2.cnt (OpenTable.bd st i))) ok !full
     end else begin
@@ -123,8 +131,14 @@ let () = iter_lines (fun line ->
           if b < 0 then s else begin
             Hashtbl.remove present (string_of_z k); Hashtbl.replace removed (string_of_z k) k;
             OpenTable.remove (BucketOps.N1.remP false mc) s (z_of_int b) k (((z0, z0), z0), z0) end)) (OpenInstances.n1_empty mc) ops in
-      let ok = Hashtbl.fold (fun _ k acc -> acc && OpenInstances.n1_find mc nz h st k) present true
-            && Hashtbl.fold (fun _ k acc -> acc && not (OpenInstances.n1_find mc nz h st k)) removed true in
+      let gfind k = (match OpenInstances.n1_gen_find mc nz hcode st k with
+        | Ok (r, ic) -> let hit = string_of_z r <> "0" in
+            if hit && not (Stdlib.List.exists (fun x -> string_of_z x = string_of_z k) (OpenTable.bk st ic)) then failwith "generated pvFind: wrong bucket";
+            if hit <> OpenInstances.n1_find mc nz h st k then failwith "generated pvFind <> model find";
+            hit
+        | _ -> failwith "generated pvFind: Stuck/Fuel/Exn") in
+      let ok = Hashtbl.fold (fun _ k acc -> acc && gfind k) present true
+            && Hashtbl.fold (fun _ k acc -> acc && not (gfind k)) removed true in
       Printf.printf "%s found=%b full=%b badfull=false\n"
         (dump (OpenTable.bk st) (fun i -> OpenInstances.n1_dec mc nz (OpenTable.bd st i)) (fun i -> BucketOps.N1.cnt false mc (OpenTable.bd st i))) ok !full
     end
